@@ -189,6 +189,7 @@ type FuncContract struct {
 	Schema    string
 	Ghost     []string
 	Locals    map[string]string // alias -> source variable name
+	AbsFloat  bool
 }
 
 func (c *FuncContract) Key() string {
@@ -289,7 +290,7 @@ func (p *parser) ident() (string, error) {
 }
 
 var itemKeywords = map[string]bool{"spec": true, "axiom": true, "lemma": true, "func": true, "external": true, "iface": true, "table": true, "schema": true}
-var clauseKeywords = map[string]bool{"requires": true, "ensures": true, "modifies": true, "loop": true, "invariant": true, "pure": true, "trusted": true, "props": true, "use": true, "bounded": true, "assumes": true, "allowpanic": true, "nobody": true, "uses": true, "keys": true, "sem": true, "local": true}
+var clauseKeywords = map[string]bool{"requires": true, "ensures": true, "modifies": true, "loop": true, "invariant": true, "pure": true, "trusted": true, "props": true, "use": true, "bounded": true, "assumes": true, "allowpanic": true, "nobody": true, "uses": true, "keys": true, "sem": true, "local": true, "absfloat": true}
 
 func parseSpecFile(pkg, file, src string) (*SpecFile, error) {
 	lines := extractSpecLines(src)
@@ -701,6 +702,8 @@ func (p *parser) parseContract(sf *SpecFile) (*FuncContract, error) {
 				c.Locals = map[string]string{}
 			}
 			c.Locals[alias] = src
+		case "absfloat":
+			c.AbsFloat = true
 		case "pure":
 			c.Pure = true
 		case "trusted":
